@@ -65,7 +65,7 @@ def confirm(d):
                 shutil.copytree(src, os.path.join(target_dir, f), dirs_exist_ok=True)
             else:
                 shutil.copy(src, os.path.join(target_dir, f))
-        cmd = re.sub(r"/tmp/mut/(?:R2)?" + meta["property"] + r"\b", wt, meta["demo_cmd"].replace("<repo>", wt))
+        cmd = re.sub(r"/tmp/mut/(?:R\d)?" + meta["property"] + r"\b", wt, meta["demo_cmd"].replace("<repo>", wt))
         # some demo commands copy their files themselves from a relative demo/ directory
         demo_cwd = d if re.search(r"(^|[;& ])cp demo/", cmd) else wt
         rc, out = sh(cmd, demo_cwd)
